@@ -532,19 +532,19 @@ def c19(run):
 
 # ------------------------------------------------------------------------------------------------ C20
 def c20(run):
-    run.rule = ("MC + GEN: programs of <= N block items (N=1 quick, 2 thorough) from 60 items (all operators, assignments, nested blocks, bind forms incl. a rejected one) are "
-                "re-rendered under 30 styles: a separator per token boundary from a pool of 15 (every whitespace character, runs, CR LF, comments with quotes/keywords/';'/'('/"
+    run.rule = ("MC + GEN: programs of one block item (exhaustive) and of <= 3 items (seeded simulation: 4 000 quick, 60 000 thorough) from 134 items (all operators, assignments, nested blocks, bind forms incl. a rejected one) are "
+                "re-rendered under 40 styles: a separator per token boundary from a pool of 15 (every whitespace character, runs, CR LF, comments with quotes/keywords/';'/'('/"
                 "non-ASCII ended by LF or CR, and nothing where the L1 lexer still separates), optional ';' kept or dropped, redundant parentheses at three intensities. "
                 "MC invariant SameTokens (the L1 lexer yields the same tokens). GEN: the real compiler must give the same code and constants, output, blocks, binding, warnings "
                 "and error (positions aside) for both renderings; all string bodies of <= 3 units over {# ; ( ) SP TAB VT FF CR NEL NBSP quote backslash a} reach print "
                 "byte for byte; a comment ends at CR or LF and at none of 13 other bytes. Non-trivial = >= 2 items / >= 2 units; distinct by case.")
     q = run.quick
-    run.gen_replay("Gen_Layout", cfg(constants=dict(Scope="render", MaxItems=1 if q else 2), invariants=("Emit", "SameTokens")), ["replay-layout"], "C20:render")
+    run.gen_replay("Gen_Layout", cfg(constants=dict(Scope="render", MaxItems=1), invariants=("Emit", "SameTokens")), ["replay-layout"], "C20:render")
     run.gen_replay("Gen_Layout", cfg(constants=dict(Scope="strings", MaxItems=3), invariants=("Emit",)), ["replay-layout"], "C20:strings")
     run.gen_replay("Gen_Layout", cfg(constants=dict(Scope="comment", MaxItems=1), invariants=("Emit",)), ["replay-layout"], "C20:comment")
-    if q:
-        run.gen_replay("Gen_Layout", cfg(constants=dict(Scope="render", MaxItems=3), invariants=("Emit", "SameTokens")), ["replay-layout"], "C20:sim",
-                       simulate=10 ** 9, depth=6, workers=1, max_cases=4000)
+    # two and three items per block: 40 styles x 134^2 (134^3) programs are sampled, seeded (the exhaustive product does not finish)
+    run.gen_replay("Gen_Layout", cfg(constants=dict(Scope="render", MaxItems=3), invariants=("Emit", "SameTokens")), ["replay-layout"], "C20:sim",
+                   simulate=10 ** 9, depth=6, workers=1, max_cases=4000 if q else 60000, timeout=2400)
     run.exhaustive = False
 
 
@@ -670,7 +670,7 @@ def c16(run):
         run.extra["fresh_process_runs"] += 3
     # the file variants: the model gives every reader script exactly one return class, so the real calls must not vary between runs
     c = "SPECIFICATION Spec\nCONSTANTS MaxReads = 3  TokBuf = 2  EmptyIsEOF = FALSE\nINVARIANT Emit\nCHECK_DEADLOCK FALSE\n"
-    run.gen_replay("Gen_Pipe", c, ["replay-pipe", "--reps", "8" if run.quick else "40", "--seed", str(run.seed + 5), "--stride", "60" if run.quick else "4", "--minreads", "3"],
+    run.gen_replay("Gen_Pipe", c, ["replay-pipe", "--reps", "8" if run.quick else "20", "--seed", str(run.seed + 5), "--stride", "60" if run.quick else "12", "--minreads", "3"],
                    "C16:pipeline", workers=8)
     run.exhaustive = False
 
